@@ -402,7 +402,7 @@ def _plan(name, tier):
     sc = {1: ("pos", pts[0]), 2: ("pos", pts[1])}
     ba = {1: ("pos", pts[2]), 2: ("pos", pts[3])}
     if tier == "quick" and name in COSTLY:
-        return [("scalar", sc, False, None, "short"), ("batched", ba, False, None, "short")]
+        return [("scalar", sc, False, None, "short")]
     # sample_shape chosen so that the value shapes coincide with the batched history (fewer distinct XLA signatures)
     import numpy as _np
     ss1 = (3,) if _np.ndim(pts[2][0]) == 1 and _np.ndim(pts[0][0]) == 0 else (2,)
@@ -456,12 +456,12 @@ def _history_events(task):
 # groups are balanced with measured per-wrapper costs.
 GROUPS = [
     ["beta_quotient"], ["dirichlet_multinomial"], ["multinomial"], ["beta_binomial", "binomial"],
-    ["von_mises_fisher", "power_spherical", "von_mises"], ["dirichlet", "beta", "kumaraswamy"],
-    ["non_central_chi2", "chi", "chi2"], ["skellam", "poisson", "zipf", "double_sided_maxwell"],
+    ["von_mises_fisher", "power_spherical"], ["dirichlet", "beta", "kumaraswamy"],
+    ["non_central_chi2", "chi", "chi2"], ["skellam", "poisson", "zipf"],
     ["mv_normal", "mv_normal_diag", "lambert_w_normal"], ["negative_binomial", "bernoulli", "geometric", "flip"],
     ["half_student_t", "student_t", "half_cauchy", "half_normal", "cauchy"],
-    ["gamma", "exp_gamma", "inverse_gamma", "exp_inverse_gamma"],
-    ["moyal", "uniform", "truncated_normal", "truncated_cauchy"],
+    ["gamma", "exp_gamma", "inverse_gamma", "exp_inverse_gamma", "double_sided_maxwell"],
+    ["moyal", "uniform", "truncated_normal", "truncated_cauchy", "von_mises"],
     ["exponential", "weibull", "gumbel", "logit_normal", "normal", "laplace", "log_normal"], ["categorical"],
 ]
 
